@@ -38,8 +38,7 @@ type Span struct {
 	SpanID     string  `json:"sid"`
 	Sampled    bool    `json:"sampled,omitempty"`
 	TraceState string  `json:"tracestate,omitempty"`
-	Parent     int     `json:"parent"` // 0 none, 1 valid local, 2 valid remote, 3 zero IDs but flagged remote
-	ParentSID  string  `json:"psid,omitempty"`
+	Parent     SC      `json:"parent"`
 	Name       string  `json:"name"`
 	Kind       int     `json:"kind"`
 	Start      int64   `json:"start"`
@@ -63,14 +62,73 @@ type Event struct {
 	Dropped int64   `json:"dropped,omitempty"`
 }
 
+// SC is a foreign trace.SpanContext (a parent or a link target) as data. Any
+// combination of its parts may be present: both IDs (valid), only the span
+// ID, only the trace ID, none; each with or without the sampled flag, the
+// remote mark and a tracestate.
+type SC struct {
+	TraceID    string `json:"tid,omitempty"` // hex; "" = all zero
+	SpanID     string `json:"sid,omitempty"` // hex; "" = all zero
+	Sampled    bool   `json:"sampled,omitempty"`
+	Remote     bool   `json:"remote,omitempty"`
+	TraceState string `json:"tracestate,omitempty"`
+}
+
+func (c SC) build() trace.SpanContext {
+	return mkSpanContext(c.TraceID, c.SpanID, c.Sampled, c.Remote, c.TraceState)
+}
+
+// shape names the ID combination.
+func (c SC) shape() string {
+	switch {
+	case c.TraceID != "" && c.SpanID != "":
+		return "both_ids"
+	case c.SpanID != "":
+		return "span_id_only"
+	case c.TraceID != "":
+		return "trace_id_only"
+	}
+	return "no_ids"
+}
+
+// genSC draws a foreign span context. ownTID is the trace ID of the span it
+// belongs to (parents normally share it), sids are span IDs of earlier spans
+// of the batch. noneWeight biases towards the completely empty context.
+func genSC(t *rapid.T, ownTID string, sids []string, noneWeight int) SC {
+	var c SC
+	shapes := []string{"both", "both", "both", "span_id_only", "trace_id_only"}
+	for i := 0; i < noneWeight; i++ {
+		shapes = append(shapes, "none")
+	}
+	shape := rapid.SampledFrom(shapes).Draw(t, "scshape")
+	if shape == "both" || shape == "trace_id_only" {
+		if ownTID != "" && rapid.IntRange(0, 3).Draw(t, "sctidown") > 0 {
+			c.TraceID = ownTID
+		} else {
+			c.TraceID = genTraceIDHex().Draw(t, "sctid")
+		}
+	}
+	if shape == "both" || shape == "span_id_only" {
+		if len(sids) > 0 && rapid.Bool().Draw(t, "scsidinbatch") {
+			c.SpanID = rapid.SampledFrom(sids).Draw(t, "scsidpick")
+		} else {
+			c.SpanID = genAnySpanIDHex().Draw(t, "scsid")
+		}
+	}
+	// flags, remote mark and tracestate are independent of the IDs
+	c.Sampled = rapid.Bool().Draw(t, "scsampled")
+	c.Remote = rapid.Bool().Draw(t, "scremote")
+	if rapid.IntRange(0, 3).Draw(t, "sctracestate") == 0 {
+		c.TraceState = rapid.SampledFrom([]string{"lk=lv", "vendor=x1,k2=v2"}).Draw(t, "sctsval")
+	}
+	return c
+}
+
 // Link is a span link as data.
 type Link struct {
-	TraceID    string  `json:"tid"`
-	SpanID     string  `json:"sid"`
-	Remote     bool    `json:"remote,omitempty"`
-	TraceState string  `json:"tracestate,omitempty"`
-	Attrs      []vk.KV `json:"attrs,omitempty"`
-	Dropped    int64   `json:"dropped,omitempty"`
+	SC
+	Attrs   []vk.KV `json:"attrs,omitempty"`
+	Dropped int64   `json:"dropped,omitempty"`
 }
 
 // traceDomain restricts the generator to what a given exporter's data model
@@ -132,14 +190,11 @@ func genTraceCase(d traceDomain) func(*rapid.T) TraceCase {
 			if rapid.IntRange(0, 5).Draw(t, "hastracestate") == 0 {
 				s.TraceState = "vendor=x1,k2=v2"
 			}
-			s.Parent = rapid.SampledFrom([]int{0, 0, 1, 1, 2, 3}).Draw(t, "parent")
-			if s.Parent == 1 || s.Parent == 2 {
-				if i > 0 && rapid.Bool().Draw(t, "parentinbatch") {
-					s.ParentSID = c.Spans[rapid.IntRange(0, i-1).Draw(t, "pidx")].SpanID
-				} else {
-					s.ParentSID = genAnySpanIDHex().Draw(t, "psid")
-				}
+			var earlier []string
+			for _, e := range c.Spans {
+				earlier = append(earlier, e.SpanID)
 			}
+			s.Parent = genSC(t, s.TraceID, earlier, 3)
 			s.Start = tm.Draw(t, "start")
 			if d.zipkin {
 				switch rapid.IntRange(0, 3).Draw(t, "zdur") {
@@ -179,17 +234,11 @@ func genTraceCase(d traceDomain) func(*rapid.T) TraceCase {
 			}
 			nl := rapid.SampledFrom([]int{0, 0, 1, 2, 3}).Draw(t, "nlinks")
 			for j := 0; j < nl; j++ {
-				l := Link{
-					TraceID: genTraceIDHex().Draw(t, "ltid"),
-					SpanID:  genAnySpanIDHex().Draw(t, "lsid"),
-					Remote:  rapid.Bool().Draw(t, "lremote"),
+				s.Links = append(s.Links, Link{
+					SC:      genSC(t, "", earlier, 1),
 					Attrs:   fewAttrs.Draw(t, "lattrs"),
 					Dropped: genCount().Draw(t, "ldropped"),
-				}
-				if rapid.IntRange(0, 3).Draw(t, "ltracestate") == 0 {
-					l.TraceState = "lk=lv"
-				}
-				s.Links = append(s.Links, l)
+				})
 			}
 			s.DroppedA = genCount().Draw(t, "droppedattrs")
 			// dropped events and links differ most of the time so that a swap shows
@@ -256,19 +305,12 @@ func (c TraceCase) stubs() tracetest.SpanStubs {
 			InstrumentationScope:   sc,
 			InstrumentationLibrary: sc,
 		}
-		switch s.Parent {
-		case 1:
-			st.Parent = mkSpanContext(s.TraceID, s.ParentSID, s.Sampled, false, "")
-		case 2:
-			st.Parent = mkSpanContext(s.TraceID, s.ParentSID, s.Sampled, true, "")
-		case 3:
-			st.Parent = mkSpanContext("", "", true, true, "")
-		}
+		st.Parent = s.Parent.build()
 		for _, e := range s.Events {
 			st.Events = append(st.Events, tracesdk.Event{Name: e.Name, Time: mkTime(e.Time), Attributes: vk.ToAttrs(e.Attrs), DroppedAttributeCount: int(e.Dropped)})
 		}
 		for _, l := range s.Links {
-			st.Links = append(st.Links, tracesdk.Link{SpanContext: mkSpanContext(l.TraceID, l.SpanID, false, l.Remote, l.TraceState), Attributes: vk.ToAttrs(l.Attrs), DroppedAttributeCount: int(l.Dropped)})
+			st.Links = append(st.Links, tracesdk.Link{SpanContext: l.SC.build(), Attributes: vk.ToAttrs(l.Attrs), DroppedAttributeCount: int(l.Dropped)})
 		}
 		out = append(out, st)
 	}
@@ -327,7 +369,7 @@ func wantSpan(ro tracesdk.ReadOnlySpan, s Span) item {
 	var ln, lnUnknown []string
 	for _, l := range ro.Links() {
 		ltid, lsid := l.SpanContext.TraceID(), l.SpanContext.SpanID()
-		f := fmt.Sprintf("{trace_id=%s span_id=%s attrs=%s dropped=%d remote=", hex.EncodeToString(ltid[:]), hex.EncodeToString(lsid[:]), renderAttrs(l.Attributes), wantCount(int64(l.DroppedAttributeCount)))
+		f := fmt.Sprintf("{trace_id=%s span_id=%s attrs=%s dropped=%d remote=", zeroIsAbsent(ltid[:]), zeroIsAbsent(lsid[:]), renderAttrs(l.Attributes), wantCount(int64(l.DroppedAttributeCount)))
 		ln = append(ln, f+fmt.Sprint(l.SpanContext.IsRemote())+"}")
 		lnUnknown = append(lnUnknown, f+"unknown}")
 	}
@@ -412,7 +454,7 @@ func decodeSpans(rss []*tracepb.ResourceSpans) []item {
 				it.add("dropped_events", "%d", sp.GetDroppedEventsCount())
 				var ln []string
 				for _, l := range sp.GetLinks() {
-					ln = append(ln, fmt.Sprintf("{trace_id=%s span_id=%s attrs=%s dropped=%d remote=%s}", hex.EncodeToString(l.GetTraceId()), hex.EncodeToString(l.GetSpanId()), decodeKVs(l.GetAttributes()), l.GetDroppedAttributesCount(), pbRemote(l.GetFlags())))
+					ln = append(ln, fmt.Sprintf("{trace_id=%s span_id=%s attrs=%s dropped=%d remote=%s}", zeroIsAbsent(l.GetTraceId()), zeroIsAbsent(l.GetSpanId()), decodeKVs(l.GetAttributes()), l.GetDroppedAttributesCount(), pbRemote(l.GetFlags())))
 				}
 				it.add("links", "["+strings.Join(ln, " ")+"]")
 				it.add("dropped_links", "%d", sp.GetDroppedLinksCount())
@@ -475,7 +517,9 @@ func traceInfo(c TraceCase) vk.Info {
 	resUsed, scopeUsed := map[int]bool{}, map[string]bool{}
 	scopeRes := map[int]map[int]bool{}
 	boundary := false
-	kinds, statuses, parents := map[int]bool{}, map[int]bool{}, map[int]bool{}
+	kinds, statuses := map[int]bool{}, map[int]bool{}
+	parents, linkShapes := map[string]bool{}, map[string]bool{}
+	var parentRemote, parentNoIDsFlagged, parentTracestate, parentOtherTrace bool
 	var preEpoch, y2262, bigDrop, negDrop, linkRemote, linkLocal, emptyScope, nilRes, inBatchParent, events, links bool
 	sids := map[string]bool{}
 	for _, s := range c.Spans {
@@ -488,7 +532,19 @@ func traceInfo(c TraceCase) vk.Info {
 			scopeRes[s.Scope] = map[int]bool{}
 		}
 		scopeRes[s.Scope][s.Res] = true
-		kinds[s.Kind], statuses[s.Status], parents[s.Parent] = true, true, true
+		kinds[s.Kind], statuses[s.Status], parents[s.Parent.shape()] = true, true, true
+		if s.Parent.Remote && s.Parent.SpanID != "" {
+			parentRemote = true
+		}
+		if s.Parent.shape() == "no_ids" && (s.Parent.Remote || s.Parent.Sampled || s.Parent.TraceState != "") {
+			parentNoIDsFlagged = true
+		}
+		if s.Parent.TraceState != "" {
+			parentTracestate = true
+		}
+		if s.Parent.TraceID != "" && s.Parent.TraceID != s.TraceID {
+			parentOtherTrace = true
+		}
 		times := []int64{s.Start, s.End}
 		counts := []int64{s.DroppedA, s.DroppedE, s.DroppedL}
 		for _, e := range s.Events {
@@ -499,6 +555,7 @@ func traceInfo(c TraceCase) vk.Info {
 		for _, l := range s.Links {
 			counts = append(counts, l.Dropped)
 			links = true
+			linkShapes[l.shape()] = true
 			if l.Remote {
 				linkRemote = true
 			} else {
@@ -533,7 +590,7 @@ func traceInfo(c TraceCase) vk.Info {
 		if c.Res[s.Res].Nil {
 			nilRes = true
 		}
-		if s.ParentSID != "" && sids[s.ParentSID] {
+		if s.Parent.SpanID != "" && sids[s.Parent.SpanID] {
 			inBatchParent = true
 		}
 	}
@@ -559,8 +616,16 @@ func traceInfo(c TraceCase) vk.Info {
 	info.ClassIf(negDrop, "dropped_count<0")
 	info.ClassIf(len(kinds) == 6, "all_six_kinds_in_batch")
 	info.ClassIf(len(statuses) == 3, "all_status_codes_in_batch")
-	info.ClassIf(parents[2], "parent_remote")
-	info.ClassIf(parents[3], "parent_invalid_flagged_remote")
+	for sh := range parents {
+		info.Class("parent:" + sh)
+	}
+	for sh := range linkShapes {
+		info.Class("link:" + sh)
+	}
+	info.ClassIf(parentRemote, "parent_remote")
+	info.ClassIf(parentNoIDsFlagged, "parent_no_ids_but_flags_remote_or_tracestate")
+	info.ClassIf(parentTracestate, "parent_with_tracestate")
+	info.ClassIf(parentOtherTrace, "parent_trace_id_differs_from_span")
 	info.ClassIf(inBatchParent, "parent_in_batch")
 	info.ClassIf(events, "events")
 	info.ClassIf(links, "links")
@@ -655,7 +720,7 @@ func runTraceWire(c TraceCase) ([]vk.Violation, vk.Info) {
 }
 
 const traceRule = "batches of 0..30 span snapshots spread over 1..4 resources (distinct by attributes; nil/empty included) and 1..4 scopes (empty, shared between resources, siblings differing in one component), " +
-	"all kinds / status codes / parent shapes, events, links, timestamps incl. epoch, pre-epoch and 2262, dropped counts incl. > MaxUint32 and negative; " +
+	"all kinds / status codes, parents and link targets as arbitrary span contexts (both IDs, span ID only, trace ID only, none; each with/without sampled flag, remote mark, tracestate), events, timestamps incl. epoch, pre-epoch and 2262, dropped counts incl. > MaxUint32 and negative; " +
 	"non-trivial = the spans of the batch use >= 2 resources or >= 2 distinct scopes, or carry >= 1 boundary value (time <= epoch or in the last second of int64 nanos, count < 0 or >= MaxUint32-1)"
 
 func TestTraceTransform(t *testing.T) {
